@@ -93,7 +93,7 @@ class C17(Config):
               "Local Open Scope Z_scope.")
     bin = "c17"
     release_too = False
-    n_tags = 60
+    n_tags = 57
     classes = {1: "C17-classify-confirmatory-flip"}
     shard_size = 1500
     rule = ("every public function of zcash_pool_migration::scheduling and zcash_protocol::zip318::{expiry_height, "
@@ -111,7 +111,12 @@ class C17(Config):
     assumptions = ["usize is 64 bits (the harness target)",
                    "debug-profile arithmetic (overflow checks on)",
                    "PoolMigrationConstants implementors keep max_residual_value > 0 (is_canonical_within loops forever on value 0 otherwise)"]
-    partial_clauses = []
+    partial_clauses = [
+        "DelayDistribution::draw: the f64/libm candidate delay is an oracle value; proved: acceptance <= cap, words consumed, heights monotone/saturating for every oracle",
+        "bridge theorem (run_case => prop_case) covers Expiry, grid, codes, Classify, ClassifyPair, DelayNew/Draw, Heights, Sched, AnchorDraw, AnchorRedraw; shuffles, wake-ups, Earliest and DefaultDists are tied by theorems on the model plus run_case/prop_case evaluation only",
+        "earliest_broadcast_height is characterised as the viability threshold only when it does not saturate at u32::MAX",
+        "classify monotonicity holds under the documented guard (no newly negative confirmatory clause); the unguarded statement is refuted (known finding class 1)",
+    ]
 
     @staticmethod
     def gen():
